@@ -53,6 +53,7 @@ func loadAll(repo string) *Program {
 		fmt.Fprintln(os.Stderr, "load error:", err)
 		os.Exit(2)
 	}
+	theProgram = p
 	p.Store = NewStore()
 	if err := p.Store.LoadTrustedDir(verifRoot() + "/trusted"); err != nil {
 		fmt.Fprintln(os.Stderr, "trusted contracts:", err)
